@@ -53,3 +53,15 @@ Definition in_diff (a : ip) : bool :=
 
 Definition refused (bp bg : bool) (m : proxy_mode) (a : ip) : bool := is_some (client_connected bp bg m a).
 
+
+(* ---- histories: one addon instance serving a sequence of connections, the options possibly
+   changing in between (each connection carries the option values current when it arrives) *)
+Record conn := { c_bp : bool; c_bg : bool; c_mode : proxy_mode; c_addr : ip }.
+
+Fixpoint run_history (st : addon_state) (h : list conn) : list (option string) :=
+  match h with
+  | [] => []
+  | c :: r =>
+      let '(st', e) := hook_step st (c_bp c) (c_bg c) (c_mode c) (c_addr c) in
+      e :: run_history st' r
+  end.
